@@ -11,6 +11,7 @@ mod art;
 mod caches;
 mod checks;
 mod edit;
+mod shared;
 
 use art::Art;
 use checks::*;
@@ -842,6 +843,15 @@ fn main() {
         .shards(10),
     );
 
+    ck.run(
+        Section::enumerate(
+            "ngdp-bytes-shared",
+            "one NgdpBytes (1 / 16 / 4096 / 70,000 bytes; intact, one bit flipped at the start / middle / end, last byte dropped, a byte appended) shared by two consumers: the first consumer's validate_with_hooks is parked inside its hooks while the second calls validate_with_hooks / validate_if_needed / is_validated / validation_state".to_string(),
+            || Box::new(shared::all_cases().into_iter()),
+            shared::check,
+        )
+        .shards(8),
+    );
     ck.run(
         Section::enumerate(
             "ml-put-during-validating-read",
